@@ -3,7 +3,7 @@
 Spec: spec/JsonSession.tla (reader / channel / worker; every request class has
 a non-empty set of admissible answer kinds in every state; invariant
 OneResponsePerRequest, liveness EventuallyAnswered).  TLC enumerates every
-history over the 27-symbol request alphabet up to a bound (and simulates
+history over the 33-symbol request alphabet up to a bound (and simulates
 longer ones) and prints them; each is replayed into a real session, which must
 print exactly one answer per request, of an admissible kind, in order, and
 still answer `1 + 1` afterwards."""
@@ -43,18 +43,35 @@ REQ = {
     "nosuchcmd": {"method": "run", "input": ":frobnicate"},
     "evalupto": {"method": "eval_up_to", "path": "/tmp/verif_c09.gdn", "src": "let y = 2\ny + 1\n", "offset": 12},
     "garbage": "this is not json",
+    "stopthrow": {"method": "run", "input": DEF + "\nf()"},
+    "stopnovar": {"method": "run", "input": "fun h() { nosuchvar1 }\nh()"},
+    "stoparg": {"method": "run", "input": "fun k(a: Int, b: Int) { a }\nk(1, nosuchvar3)"},
+    "stoptest": {"method": "run", "input": "test t2 { assert(1 == 2) }"},
+    "replaceBad": {"method": "run", "input": ":replace nosuchvar2"},
+    "replaceCall": {"method": "run", "input": ":replace f()"},
 }
+# the stopped-state focus: composite stops + every evaluation command + abort
+FOCUS = ["stopthrow", "stopnovar", "stoparg", "stoptest", "badprint", "badif", "badfor", "resume", "skip", "replaceT",
+         "replace5", "replaceBad", "replaceCall", "test", "abort"]
 ADMISSIBLE = {"source": {"value", "error"}, "evalcmd": {"value", "error", "command", "malformed"},
               "cmd": {"command", "value", "error"}, "evalupto": {"value", "error"}, "malformed": {"malformed"}}
 CLASS = {}
 for k in REQ:
     CLASS[k] = ("malformed" if k == "garbage" else "evalupto" if k == "evalupto" else
-                "evalcmd" if k in ("resume", "skip", "replaceT", "replace5", "test") else
+                "evalcmd" if k in ("resume", "skip", "replaceT", "replace5", "test", "replaceBad", "replaceCall") else
                 "cmd" if REQ[k]["input"].startswith(":") else "source")
 
 
-def histories(maxlen, simulate=None, seed=0):
+ORDER = ["def", "let", "read", "callthrow", "badprint", "badif", "badwhile", "badmatch", "badfor", "deftest", "parseerr", "resume", "skip",
+         "replaceT", "replace5", "test", "abort", "forget", "forgetlocal", "type", "locals", "stack", "fstmts", "fvalues", "nosuchcmd",
+         "evalupto", "garbage", "stopthrow", "stopnovar", "stoparg", "stoptest", "replaceBad", "replaceCall"]
+
+
+def histories(maxlen, simulate=None, seed=0, focus=False):
     cfgtxt = open(os.path.join(os.path.dirname(__file__), "..", "..", "spec", "JsonSession.cfg")).read()
+    if focus:
+        idx = ",".join(str(ORDER.index(s) + 1) for s in FOCUS)
+        cfgtxt = re.sub(r"Allowed = \{[^}]*\}", "Allowed = {" + idx + "}", cfgtxt)
     d = os.path.join(os.path.dirname(__file__), "..", "..", "spec")
     name = f"JsonSession_{maxlen}_{os.getpid()}.cfg"
     with open(os.path.join(d, name), "w") as f:
@@ -109,15 +126,22 @@ def run(tier, seed):
     if tier == "quick":
         r2, h2 = histories(2)
         ck.add_tlc(r2)
-        r5, h5 = histories(5, simulate=300, seed=seed + 1)
+        r5, h5 = histories(5, simulate=200, seed=seed + 1)
         ck.add_tlc(r5)
-        hs = h2 + h5[:250]
+        rf, hf = histories(3, focus=True)
+        ck.add_tlc(rf)
+        import zlib
+        # a third of the focus histories per run, rotated by the seed
+        hf = [h for h in hf if (zlib.crc32(",".join(h).encode()) + seed) % 3 == 0]
+        hs = h2 + h5[:150] + hf
     else:
         r3, h3 = histories(3)
         ck.add_tlc(r3)
         r6, h6 = histories(6, simulate=3000, seed=seed + 1)
         ck.add_tlc(r6)
-        hs = h3 + h6
+        rf, hf = histories(4, focus=True)
+        ck.add_tlc(rf)
+        hs = h3 + h6 + hf
     results = pmap(play, hs)
     stopped_states = 0
     for hist, (rc, answers, err) in zip(hs, results):
@@ -150,7 +174,7 @@ def run(tier, seed):
     vacuity(stopped_states > 20, "too few histories issue an evaluation command after a failed evaluation")
     ck.assumptions += ["`interrupt` requests are answered by the reader thread out of band and are not in the alphabet (C08 covers them)",
                        "the admissible answer kinds are deliberately loose: the property is one answer per request, in order, and survival"]
-    return ck.finish(rule="all histories over the 27-symbol alphabet up to the exhaustive bound plus TLC-simulated longer ones; non-trivial = histories that issue :resume/:skip/:replace/:test after a failed evaluation",
+    return ck.finish(rule="all histories over the 33-symbol alphabet up to the exhaustive bound plus TLC-simulated longer ones; non-trivial = histories that issue :resume/:skip/:replace/:test after a failed evaluation",
                      exhaustive=False)
 
 
